@@ -27,7 +27,7 @@ W20 = [w for w in dwtu.WAVES if dwtu.flen(w) <= 20]
 
 def plan(tier):
     if tier == 'quick':
-        return [{'n': 110} for _ in range(8)]
+        return [{'n': 110} for _ in range(16)]
     units = [{'n': 12, 'wave': w, 'mode': m, 'direction': d, 'dim': dim}
              for w in W20 for m in dwtu.MODES5 for d in ('analysis', 'synthesis') for dim in (1, 2)]
     units += [{'n': 4000} for _ in range(16)]
